@@ -981,9 +981,10 @@ func stateEndTop(s *Scanner, c byte) state {
 		return scanContinue
 
 	case s.isAnnotationStart(c):
-		if s.lengthComputing && s.index < s.dataSize && s.data[s.index] != '/' && s.data[s.index] != '*' {
+		if s.lengthComputing && (s.index >= s.dataSize || (s.data[s.index] != '/' && s.data[s.index] != '*')) {
 			// A slash that doesn't begin `//` or `/*` can't continue the schema:
-			// it is the first byte after it (ex: `/cats` in "{}\n/cats").
+			// it is the first byte after it (ex: `/cats` in "{}\n/cats", or the
+			// last byte of the text).
 			s.found(lexeme.EndTop)
 			return scanContinue
 		}
